@@ -211,7 +211,7 @@ impl Prop for C18 {
         vec!["both runs happen on one machine and toolchain: dependence on endianness or pointer width is not exercised".into()]
     }
     fn n_cases(&self, tier: Tier) -> u64 {
-        tier.pick(6000, 60000)
+        tier.pick(6000, 30000)
     }
     fn timeout_s(&self, tier: Tier) -> u64 {
         tier.pick(90, 180)
